@@ -691,6 +691,8 @@ class Models:
         name = name.replace("::<>", "").replace("<>", "").replace("<, ", "<")
         name = re.sub(r"\b(?:std|core|alloc)::(?:string|vec|option|result|borrow|boxed|cmp|rc|sync|path|time|collections(?:::btree_map|::hash_map|::btree|::hash)?)::(?=[A-Z])", "", name)
         name = re.sub(r"\b(?:std|alloc)::str::<impl str>", "core::str::<impl str>", name)
+        name = re.sub(r"^str::<impl str>", "core::str::<impl str>", name)
+        name = re.sub(r"^slice::<impl \[", "core::slice::<impl [", name)
         name = re.sub(r"\b(?:std|alloc)::slice::<impl \[", "core::slice::<impl [", name)
         return name.strip()
 
@@ -1014,6 +1016,7 @@ def register_all(M):
     M.add(r"Vec::<.*>::len|core::slice::<impl \[.*\]>::len", lambda c, m, a: usize(len(as_items(a[0]))))
     M.add(r"Vec::<.*>::is_empty|core::slice::<impl \[.*\]>::is_empty", lambda c, m, a: SBool(len(as_items(a[0])) == 0))
     M.add(r"<Vec<.*> as Deref>::deref|Vec::<.*>::as_slice|<Vec<.*> as AsRef<\[.*\]>>::as_ref", lambda c, m, a: Slice(as_items(a[0])))
+    M.add(r"<Vec<.*> as DerefMut>::deref_mut|Vec::<.*>::as_mut_slice", lambda c, m, a: deref(a[0]))      # in-place algorithms work on the buffer itself
     M.add(r"<\[.*\] as ToOwned>::to_owned|<Vec<.*> as ToOwned>::to_owned|core::slice::<impl \[.*\]>::to_vec|<Vec<.*> as Clone>::clone|<Vec<.*> as From<&\[.*\]>>::from|<&\[.*\] as Into<Vec<.*>>>::into",
           lambda c, m, a: VecBuf([deep_clone(x) for x in as_items(a[0])]))
     M.add(r"core::slice::<impl \[.*\]>::into_vec::<.*>", lambda c, m, a: VecBuf(as_items(deref_box(a[0]))))
@@ -1427,7 +1430,16 @@ def register_all(M):
             v = it.next(c)
             if v is None:
                 break
-            best = v if best is None else usize_max(c, None, [best, v])
+            if best is None:
+                best = v
+            else:
+                x, y = deref(best), deref(v)
+                from mir_exec import SIGNED as _SG
+                if isinstance(x, SInt) and x.ty in _SG:
+                    best = mk_int(z3.simplify(z3.If(y.z() >= x.z(), y.z(), x.z())), x.ty) if not (x.concrete and y.concrete) else \
+                        (v if (y.v - (1 << INT_BITS[y.ty]) if y.v >= 1 << (INT_BITS[y.ty] - 1) else y.v) >= (x.v - (1 << INT_BITS[x.ty]) if x.v >= 1 << (INT_BITS[x.ty] - 1) else x.v) else best)
+                else:
+                    best = usize_max(c, None, [best, v])
         return none() if best is None else some(best)
     M.add(IT + r"::max", it_max)
     M.add(IT + r"::into_iter", lambda c, m, a: to_iter(c, a[0]))
@@ -1617,8 +1629,9 @@ def register_all(M):
         if x.concrete and y.concrete:
             return x if x.v <= y.v else y
         return mk_int(z3.If(z3.ULE(x.z(), y.z()), x.z(), y.z()), x.ty)
-    M.add(r"<(?:usize|u8|u16|u32|u64|i32|i64|isize) as (Add|Sub|Mul)<&(?:usize|u8|u16|u32|u64|i32|i64|isize)>>::(?:add|sub|mul)|<&(?:usize|u64|i32) as (Add|Sub|Mul)<&?(?:usize|u64|i32)>>::(?:add|sub|mul)",
-          lambda c, m, a: c.binop(m.group(1) or m.group(2), deref(a[0]), deref(a[1])))
+    _I = r"(?:usize|u8|u16|u32|u64|i8|i16|i32|i64|isize)"
+    M.add(r"<&?" + _I + r" as (Add|Sub|Mul|Div|Rem|BitAnd|BitOr|BitXor)(?:<&?" + _I + r">)?>::(?:add|sub|mul|div|rem|bitand|bitor|bitxor)",
+          lambda c, m, a: c.binop(m.group(1), deref(deref(a[0])), deref(deref(a[1]))))
     M.add(r"<usize as Ord>::max|std::cmp::max::<usize>|core::cmp::Ord::max", usize_max)
 
     def sat_sub(c, m, a):
@@ -1771,6 +1784,10 @@ def register_all(M):
     M.add(r"<String as Default>::default", lambda c, m, a: StringBuf())
     M.add(r"<bool as Default>::default", lambda c, m, a: SBool(False))
     M.add(r"<(usize|u8|u16|u32|u64|i32|i64|isize) as Default>::default", lambda c, m, a: mk_int(0, m.group(1)))
+
+    # more std contracts (kept in their own module); registered before the last resorts so that those stay last
+    from mir_models_extra import register_extra
+    register_extra(M, it_of, to_iter, drain)
 
     # last resorts: structural clone for owned values
     M.add(r"<.* as ToOwned>::to_owned|<.* as Clone>::clone", lambda c, m, a: deep_clone(deref(a[0])))
